@@ -199,6 +199,25 @@ theorem inh_union {T : Table} {st : List Nat} {t : Nat} {v : V} {ids : List Nat}
     simp only [h, List.any_eq_true]
     exact ⟨i, hi, hn⟩
 
+theorem inh_cycle {T : Table} {st : List Nat} {t d : Nat} {v : V}
+    (h : T.types[t]? = some (.cycle d)) :
+    inh T st t v ↔ ∃ id, resolveCycle st d = some id ∧ inh T (st.drop d) id v := by
+  constructor
+  · rintro ⟨n, hn⟩
+    cases n with
+    | zero => simp [inhB] at hn
+    | succ n =>
+      unfold inhB at hn
+      simp only [h] at hn
+      cases hr : resolveCycle st d with
+      | none => simp [hr] at hn
+      | some id => simp only [hr] at hn; exact ⟨id, rfl, n, hn⟩
+  · rintro ⟨id, hr, n, hn⟩
+    refine ⟨n + 1, ?_⟩
+    unfold inhB
+    simp only [h, hr]
+    exact hn
+
 /-- finitely many inhabitation facts share one fuel -/
 theorem FieldsRel.common_fuel {T : Table} {st : List Nat} {l : List (Option Name × Nat)}
     {fs : List (Option Name × V)} (h : FieldsRel (inh T st) l fs) :
